@@ -6,8 +6,12 @@ BIN=${RIECHECK_BIN:-$HERE/bin/riecheck}
 D=$(mktemp -d ${TMPDIR:-/tmp}/rie-try-XXXXXX)
 trap 'rm -rf "$D"' EXIT
 rsync -a --exclude .git /repo/ "$D/repo/"
-diff=$1; shift
+diff=$(realpath "$1"); shift
 ( cd "$D/repo" && git apply --whitespace=nowarn "$diff" ) || { echo "patch does not apply"; exit 3; }
 for p in "$@"; do
-  ${DUMP:+env RIECHECK_DUMP=1} "$BIN" -property "$p" -repo "$D/repo" -verif "$HERE" -no-evidence 2>&1 | grep -v "^DUMP discharged" | cut -c1-${COLS:-400}
+  if [ -n "${BRIEF:-}" ]; then
+    "$BIN" -property "$p" -repo "$D/repo" -verif "$HERE" -no-evidence 2>&1 | grep -A3 "^  violated \|^UNRESOLVED\|^ERROR" | grep -v "^--\|^VIOLATION" | cut -c1-${COLS:-300}
+  else
+    ${DUMP:+env RIECHECK_DUMP=1} "$BIN" -property "$p" -repo "$D/repo" -verif "$HERE" -no-evidence 2>&1 | grep -v "^DUMP discharged" | cut -c1-${COLS:-400}
+  fi
 done
